@@ -281,7 +281,11 @@ pub fn run_batch(
                     let (rep, sc) = check.run_index(seed, i, tier, want_sc);
                     slot.0.store(u64::MAX, Ordering::SeqCst);
                     acc.evaluations += 1;
-                    acc.runs += rep.runs.max(1);
+                    acc.runs += rep.runs;
+                    if rep.runs == 0 {
+                        // the check's own domain guard turned the generated scenario down: nothing was executed
+                        *acc.probes.entry("generated_scenario_outside_the_checks_domain".into()).or_insert(0) += 1;
+                    }
                     acc.all_traces.insert(rep.trace_hash);
                     if rep.nontrivial {
                         acc.nontrivial.insert(rep.trace_hash);
@@ -888,6 +892,11 @@ pub fn run_check(check: &dyn Erased, tier: Tier) -> i32 {
         reported,
         known_hits.len()
     );
+    // a generator and its check's domain guard that have drifted apart would silently thin out the batch
+    let outside = res.probes.get("generated_scenario_outside_the_checks_domain").copied().unwrap_or(0);
+    if reported == 0 && res.evaluations >= 1000 && outside * 10 > res.evaluations {
+        eprintln!("HARNESS-WARNING: {} of {} generated scenarios were turned down by the check's own domain guard", outside, res.evaluations);
+    }
     exit
 }
 
